@@ -462,6 +462,10 @@ func oracleJSONOut(op *Sexp, res string) []string {
 			fails = append(fails, fmt.Sprintf("output is not valid JSON: %q", out))
 			continue
 		}
+		if !utf8.Valid(out) {
+			// JSON text is UTF-8 (RFC 8259 §8.1): encoding/json's syntax check lets raw invalid bytes through, a strict reader does not
+			fails = append(fails, fmt.Sprintf("F21 the output is not valid UTF-8 (a string or name with invalid UTF-8 is copied byte for byte): %q", clip(string(out), 80)))
+		}
 		pos := 0
 		want, ok := callTreeValue(batch.List, &pos)
 		if !ok {
